@@ -2,6 +2,7 @@
 """Regenerates the seeded-changes table of DESIGN.md section 11.6 from seeded/*/meta.json."""
 import json, glob, os, re
 NOTES = {
+ 'C18-r11-stacked-language-options': 'Strengthened: first missed by both; a share of the reports is now built with several stacked language options of which the last decides. The names functions themselves are untouched by this change, so it is the report check (C17) that sees it.',
  'C19-r10-errs-cause-loses-sentinel': 'Strengthened: first missed; failing readers now fail with ten kinds of error (plain, io sentinels, a custom type, %w chains, errs.New / errs.Wrap with causes and contexts).',
  'C16-r10-v2-score-memo-key-eviction': 'Strengthened: first missed (the shared v2 object had equal base and adjusted impact); the shared objects now include vectors whose levels disagree (requirements that change the adjusted impact, Modified Scope different from Scope) and the lower views are asked Score, Severity and Encode.',
  'C08-r10-max-vector-len-74': 'Strengthened: first missed; vectors in which every metric takes one of its longest (or shortest) value codes at once are generated for all levels.',
